@@ -20,10 +20,29 @@ def run(ctx):
     ascoded = ctx.tlc("TxPoolConc", cfg="TxPoolConc_ascoded.cfg", allow_violation=True)
     sched_run = ctx.tlc("TxPoolConc", cfg="TxPoolConc.cfg")
     readers = ctx.tlc("TxPoolConc", cfg="TxPoolConc_readers.cfg")
+    negcache = ctx.tlc("TxPoolConc", cfg="TxPoolConc_negcache.cfg", allow_violation=True)
+    if not negcache["error"]:
+        raise Inconclusive("negative control: the negative-lookup-cache variant was not refuted by the model")
     cached = ctx.tlc("TxPoolConc", cfg="TxPoolConc_cachedview.cfg", allow_violation=True)
     if not cached["error"]:
         raise Inconclusive("negative control: the cached-pending-view variant was not refuted by the model")
     scheds = parse_json_lines(ctx, sched_run, "SCHED")
+    # schedules with a two-step lookup are many: all of those without one, and of the others a few
+    # per pattern (initial pool state, bookkeeping call, order of the lookup's two steps relative to
+    # the critical sections of the bookkeeping call)
+    import random as _r
+    _rng = _r.Random(ctx.seed)
+    plain_s = [x for x in scheds if 4 not in x["sched"]]
+    by_pat = collections.defaultdict(list)
+    for x in scheds:
+        if 4 in x["sched"]:
+            by_pat[(x["init"], x["op2"], tuple(t for t in x["sched"] if t in (2, 4)))].append(x)
+    picked = []
+    for k in sorted(by_pat):
+        _rng.shuffle(by_pat[k])
+        picked += by_pat[k][:(3 if quick else 12)]
+    n_patterns = len(by_pat)
+    scheds = plain_s + picked
     gen_cfg = """SPECIFICATION Spec
 CONSTANTS
   Cap = 200
@@ -128,6 +147,7 @@ CHECK_DEADLOCK FALSE
         "real_calls": stat["calls"],
         "tlc_generated_histories": len(hists),
         "tlc_generated_schedules": len(scheds),
+        "lookup_schedule_patterns": n_patterns,
         "events_by_kind": dict(kinds),
         "reorg_scenarios_with_transactions": len(sel),
         "reorg_crash_restart_cycles": int(st5["crashruns"]),
@@ -139,6 +159,7 @@ CHECK_DEADLOCK FALSE
     finish(ctx, "model_checking", coverage, [
         "pack/mark/unmark are driven on the real TxPool with its real LevelDB executed store; state nonces come from a real AccountDB",
         "the dev fork schedule below height 12 is in force (Transactions.Less of Proposal021)",
+        "lock-free existence lookups (IsExisted) are a two-step thread of the schedules: the executed-store read is held by a pausing wrapper (hook export VerifWrapExecutedStore) and released at the scheduled point",
         "lock-free readers (PackForCast, GetReceived) are one more thread of the schedules: a read may fall between any two critical sections of the overlapping calls",
         "concurrency: every interleaving of the pool's unlocked critical sections for two overlapping calls (Add with Add/Mark/UnMark of the same transaction) "
         "is enumerated by TLC and replayed with the gate hook; schedules of three or more overlapping calls and the goroutine schedules the Go runtime "
